@@ -9,7 +9,7 @@ def ns(k):
 
 
 def gen(ctx, family, n, n2, nperm, **kw):
-    c = dict(MaxN=7, Whats=ALLW, MaxExtra=2, MaxOver=0, Ops='{"list"}', Ns=n, MaxAnom=1, Ns2=n2, NsPerm=nperm,
+    c = dict(MaxN=7, Whats=ALLW, MaxExtra=2, MaxOver=0, MinN=0, Ops='{"list"}', Ns=n, MaxAnom=1, Ns2=n2, NsPerm=nperm,
              Family='"%s"' % family, Form='"list"')
     return ctx.behaviours("cert", "Gen_QuorumCert", "Gen_QuorumCert.cfg", constants=c, timeout=900, **kw)
 
@@ -24,11 +24,11 @@ def run(ctx):
         r = ctx.model_check("cert", "MC_QuorumCert", "MC_QuorumCert_list.cfg",
                             constants=dict(MaxN=ctx.pick(3, 4), MaxExtra=1), coverage=True,
                             timeout=ctx.pick(600, 1800))
-        ctx.check_coverage(r, ["AppendItem", "VerifyList"], allow_zero=("AddPart", "VerifyPart", "VerifyProof"))
+        ctx.check_coverage(r, ["AppendItem", "VerifyList", "DecodeGarbageList"], allow_zero=("AddPart", "VerifyPart", "VerifyProof", "NewPart", "DecodeGarbage(k, d)"))
         ctx.exhaustive = True
         # 2. decision table: every subset of valid signatures for n = 1..7 with <= 1 anomaly (8 kinds, 3 positions),
         #    with <= 2 anomalies for n <= 3/5, every ordering of the valid part for n <= 4/5, random constructions
-        table = gen(ctx, "table", ns(7), ns(ctx.pick(3, 5)), ns(ctx.pick(4, 5)))
+        table = gen(ctx, "table", "{0, " + ns(7)[1:], ns(ctx.pick(3, 5)), ns(ctx.pick(4, 5)))
         walks = gen(ctx, "walk", ns(7), "{}", "{}", simulate="num=%d" % ctx.pick(400, 6000), depth=12, seed=ctx.seed)
         seen, allb = set(), []
         for b in table + walks:
@@ -48,7 +48,7 @@ def run(ctx):
     ctx.absorb(recs)
     # 4. thorough: the same certificates as the vote list of a child block through BlockManager.Import
     if not ctx.quick() and not ctx.replay:
-        sub = [b for i, b in enumerate(allb) if b[0]["n"] <= 4 and (i % 7 == ctx.seed % 7 or b[0]["res"] == "ok")]
+        sub = [b for i, b in enumerate(allb) if b[0]["op"] == "verifylist" and 1 <= b[0]["n"] <= 4 and (i % 7 == ctx.seed % 7 or b[0]["res"] == "ok")]
         inp2 = ctx.path("in", "import.ndjson")
         with open(inp2, "w") as fh:
             for b in sub:
@@ -68,10 +68,10 @@ def run(ctx):
                                    shards=ctx.pick(6, 12))
         ctx.absorb(frecs)
     return ctx.finish(
-        rule="a case = one commit vote list: the valid precommit signatures of a subset of n validators (n=1..7, every subset) "
+        rule="a case = one commit vote list: the valid precommit signatures of a subset of n validators (n=0..7, every subset; n=0: genesis block, nil or empty validator list) "
              "with anomalous items inserted (duplicate signer, non-validator, signature over another block/round/part-set/"
              "vote type/timestamp, forged bytes, unrecoverable bytes) at the front, middle or end: %d table cases (<=1 anomaly for every n, "
-             "<=2 for n<=%d, every ordering of the valid part for n<=%d) + %d random constructions; distinct by (n, item sequence); verdict predicted by TLC"
+             "<=2 for n<=%d, every ordering of the valid part for n<=%d) + bytes that are not a vote list + %d random constructions; distinct by (n, item sequence); verdict predicted by TLC"
              % counts,
         assumptions=["signatures are symbolic in the spec (secp256k1/SHA3 trusted): a signature over anything but the exact "
                      "target recovers to a key unrelated to the validators",
